@@ -219,6 +219,21 @@ fn main() {
                     }
                 }
             }
+            "diserde" => {
+                // diserde <o> <h> <l> <c> <v>: build through the builder, bincode round trip, compare
+                let r = DataItem::builder().open(pf(w[1])).high(pf(w[2])).low(pf(w[3])).close(pf(w[4])).volume(pf(w[5])).build();
+                match r {
+                    Err(e) => format!("err {:?}", e),
+                    Ok(di) => match catch_unwind(AssertUnwindSafe(|| {
+                        let bytes = bincode::serialize(&di).map_err(|e| e.to_string())?;
+                        let back: DataItem = bincode::deserialize(&bytes).map_err(|e| e.to_string())?;
+                        Ok::<bool, String>(back == di && back.open().to_bits() == di.open().to_bits() && back.high().to_bits() == di.high().to_bits()
+                            && back.low().to_bits() == di.low().to_bits() && back.close().to_bits() == di.close().to_bits() && back.volume().to_bits() == di.volume().to_bits())
+                    })) {
+                        Ok(Ok(true)) => "ok".into(), Ok(Ok(false)) => "differs".into(), Ok(Err(e)) => format!("err {}", e.replace('\n', " ")), Err(_) => "panic".into(),
+                    }
+                }
+            }
             "dibuild" => {
                 // dibuild o:<f64> h:<f64> ... : setter calls in the given order (repeats allowed), then build()
                 let r = catch_unwind(AssertUnwindSafe(|| {
